@@ -1,6 +1,10 @@
 ---- MODULE MC_Lexer ----
 EXTENDS LexerRef
 A12 == {"a", "n", "e", "1", "s", "l", "q", "b", "p", "o", "c", "h"}
+NoSeed == {<<>>}
+InterpSeeds == {<<"q", "b", "k", "a", "K">>, <<"q", "a", "b", "k", "1", "K">>}
+A3 == {"a", "s", "l"}
+A7 == {"a", "n", "s", "q", "b", "p", "K", "k", "1"}
 A9 == {"a", "n", "1", "s", "l", "q", "b", "p", "h"}
 \* a wide alphabet for random long inputs (the reference marks most of it "unknown"; these runs
 \* judge totality, the stream shape and the verbatim rule only):
